@@ -252,9 +252,32 @@ def _naming(fn):
     before = ast.unparse(loop[0].body[i - 1])
     if before != 'out_fn = sanitize_path_comp(out_fmt % meta)':
         raise TableError('the natural name is not sanitize_path_comp(out_fmt %% meta): %r' % before)
-    inits = [ast.unparse(st) for st in ast.walk(fn) if isinstance(st, ast.Assign) and ast.unparse(st.targets[0]) in ('out_idx', 'generated_outs')]
-    if sorted(inits) != ['generated_outs = set()', 'out_idx = 0']:
-        raise TableError('out_idx / generated_outs are not initialised once per source directory: %r' % inits)
+    # where the set of generated names lives: reset for every source directory (names unique per source
+    # directory only), or -- with --dest-dir -- one set shared by all source directories of the invocation
+    dirloops = [st for st in ast.walk(fn) if isinstance(st, ast.For) and ast.unparse(st.target) == 'src_dir'
+                and ast.unparse(st.iter) == 'args.src_dirs']
+    if len(dirloops) != 1 or loop[0] not in dirloops[0].body:
+        raise TableError('the group loop is not directly inside the one `for src_dir in args.src_dirs` loop')
+    dl = dirloops[0]
+    inits = [ast.unparse(st) for st in ast.walk(fn) if isinstance(st, ast.Assign)
+             and ast.unparse(st.targets[0]) in ('out_idx', 'generated_outs', 'dest_dir_outs')]
+    top = [ast.unparse(st) for st in dl.body]
+    if sorted(inits) == ['generated_outs = set()', 'out_idx = 0']:
+        if 'generated_outs = set()' not in top or 'out_idx = 0' not in top:
+            raise TableError('out_idx / generated_outs are not initialised once per source directory')
+        out['shared_dest'] = False
+    elif sorted(inits) == ['dest_dir_outs = set()', 'generated_outs = dest_dir_outs', 'generated_outs = set()', 'out_idx = 0']:
+        want_if = 'if args.dest_dir:\n    generated_outs = dest_dir_outs\nelse:\n    generated_outs = set()'
+        if want_if not in top or 'out_idx = 0' not in top:
+            raise TableError('unrecognised per-directory initialisation of generated_outs / out_idx: %r' % [t for t in top if 'generated_outs' in t or 'out_idx' in t])
+        main_top = [ast.unparse(st) for st in fn.body]
+        if 'dest_dir_outs = set()' not in main_top or main_top.index('dest_dir_outs = set()') > fn.body.index(dl):
+            raise TableError('dest_dir_outs is not initialised once before the source directory loop')
+        if any(isinstance(n, ast.Name) and n.id == 'dest_dir_outs' and isinstance(n.ctx, ast.Store) for n in ast.walk(dl)):
+            raise TableError('dest_dir_outs is re-bound inside the source directory loop')
+        out['shared_dest'] = True
+    else:
+        raise TableError('out_idx / generated_outs are initialised in an unrecognised way: %r' % inits)
     return out
 
 
@@ -440,6 +463,9 @@ def emit(src):
     o.append('Definition sfx_tail : list N := %s.' % cstr(nm['sfx_tail']))
     o.append('(* true = the suffix index is increased until the name is unused; false = a single append of out_idx *)')
     o.append('Definition sfx_retry : bool := %s.' % _bool(nm['sfx_retry']))
+    o.append('(* true = with --dest-dir the set of generated names is shared by all source directories of the invocation;')
+    o.append('   false = it is reset for every source directory *)')
+    o.append('Definition names_shared_dest : bool := %s.' % _bool(nm['shared_dest']))
     o.append('(* ignore rules of --extract-private, by function name *)')
     o.append('Definition private_ignore_rule_names : list (list N) := %s.' % clist(cstr(s) for s in priv))
     o.append('(* nitool split: default name  pad(split_width, idx) ++ split_sep ++ basename *)')
